@@ -1,6 +1,7 @@
 package props
 
 import (
+	"go/token"
 	"golang.org/x/tools/go/ssa"
 
 	"resverif/core"
@@ -62,9 +63,7 @@ func panicGuardsIn(F *ssa.Function) []guardSite {
 			}
 			if iff, ok := b.Instrs[len(b.Instrs)-1].(*ssa.If); ok {
 				for i, s := range b.Succs {
-					if len(s.Preds) != 1 {
-						continue
-					}
+					// (a block shared by several guards - merged switch cases - still only panics)
 					if okp, _ := edgeReachesOnlyPanic(s, func(ssa.Instruction) bool { return false }); okp {
 						rep := at
 						if rep == nil {
@@ -304,6 +303,108 @@ func helperCalls(p *core.Prog, F *ssa.Function) []ssa.CallInstruction {
 	var out []ssa.CallInstruction
 	for _, f2 := range p.Helpers(F) {
 		out = append(out, core.Calls(f2)...)
+	}
+	return out
+}
+
+// valSrc is one non-phi source of a value together with the CFG edge through
+// which it enters the (outermost) phi; Pred is nil when the value is used as it is.
+type valSrc struct {
+	V        ssa.Value
+	Pred, To *ssa.BasicBlock
+}
+
+// phiSources expands v through phis (a variable assigned on several paths and
+// used after the merge, e.g. the single `return result` of a function written
+// with one exit).
+func phiSources(v ssa.Value) []valSrc {
+	var out []valSrc
+	seen := map[*ssa.Phi]bool{}
+	var walk func(v ssa.Value, pred, to *ssa.BasicBlock)
+	walk = func(v ssa.Value, pred, to *ssa.BasicBlock) {
+		if phi, ok := v.(*ssa.Phi); ok {
+			if seen[phi] {
+				return
+			}
+			seen[phi] = true
+			for i, e := range phi.Edges {
+				walk(e, phi.Block().Preds[i], phi.Block())
+			}
+			return
+		}
+		out = append(out, valSrc{v, pred, to})
+	}
+	walk(v, nil, nil)
+	return out
+}
+
+// srcEdges lists the If edges known to have been taken when source s reaches
+// the instruction that uses it: for a direct value the edges dominating the use,
+// for a phi input the edges dominating the end of the predecessor block plus the
+// predecessor's own branch edge into the merge block.
+func srcEdges(use ssa.Instruction, s valSrc) []edgeCond {
+	if s.Pred == nil {
+		return dominatingEdges(use)
+	}
+	last := s.Pred.Instrs[len(s.Pred.Instrs)-1]
+	out := dominatingEdges(last)
+	if iff, ok := last.(*ssa.If); ok && len(s.Pred.Succs) == 2 && s.Pred.Succs[0] != s.Pred.Succs[1] {
+		for i, sc := range s.Pred.Succs {
+			if sc == s.To {
+				out = append(out, edgeCond{iff, i})
+			}
+		}
+	}
+	return out
+}
+
+// condFact: the bool value V is known to be True (or false) at some point.
+type condFact struct {
+	V    ssa.Value
+	True bool
+}
+
+// edgeFacts lists what taking edge e establishes: the branch condition itself
+// and, when the condition is a flag (a bool phi) that can have the required
+// value through one input only, that input's comparison and the edges through
+// which it flows in (`ok = a && b; if ok {` establishes b and a).
+func edgeFacts(e edgeCond) []condFact { return edgeFactsD(e, 0) }
+
+func edgeFactsD(e edgeCond, depth int) []condFact {
+	cnd, succ := e.Norm()
+	truth := succ == 0
+	out := []condFact{{cnd, truth}}
+	phi, ok := cnd.(*ssa.Phi)
+	if !ok || depth > 3 {
+		return out
+	}
+	var compat []valSrc
+	for _, s := range phiSources(phi) {
+		if isConstBool(s.V, !truth) {
+			continue
+		}
+		compat = append(compat, s)
+	}
+	if len(compat) != 1 {
+		return out
+	}
+	s := compat[0]
+	if _, isC := s.V.(*ssa.Const); !isC {
+		w, t := s.V, truth
+		for {
+			u, ok := w.(*ssa.UnOp)
+			if !ok || u.Op != token.NOT {
+				break
+			}
+			w, t = u.X, !t
+		}
+		out = append(out, condFact{w, t})
+	}
+	if s.Pred != nil {
+		last := s.Pred.Instrs[len(s.Pred.Instrs)-1]
+		for _, e2 := range srcEdges(last, s) {
+			out = append(out, edgeFactsD(e2, depth+1)...)
+		}
 	}
 	return out
 }
